@@ -372,6 +372,15 @@ func (n *node) RegisterName(name gen.Atom, pid gen.PID) error {
 
 	p.name = name
 
+	if p.isAlive() == false {
+		// the process has terminated meanwhile and may have released its
+		// (not yet existing) name already: do not leave the name bound to it
+		n.names.CompareAndDelete(name, p)
+		p.name = ""
+		p.registered.Store(false)
+		return gen.ErrProcessTerminated
+	}
+
 	return nil
 }
 
